@@ -229,7 +229,9 @@ func (c *Ctx) Do(op string, nontrivial bool) string {
 	}
 	for _, v := range c.pending {
 		v.Line, v.Op, v.Impl = c.line, op, out
-		if len(c.Violations) < 200 {
+		// keep at most 40 violations per class (a frequent known-finding class must not crowd out
+		// an unknown one), 600 in total
+		if c.Dist["violation:"+v.Class] < 40 && len(c.Violations) < 600 {
 			c.Violations = append(c.Violations, v)
 		}
 		c.Dist["violation:"+v.Class]++
